@@ -393,7 +393,7 @@ package lang
 //@   at call ConvertGoType#1 assert imp($idx < len(p.Parameters.params), unbox(arg0, string) == p.Parameters.params[$idx])
 //@   at call ConvertGoType#1 assert imp($idx >= len(p.Parameters.params) && mfd.Parameters[$idx].Optional, mfd.Parameters[$idx].HasDefault && unbox(arg0, string) == mfd.Parameters[$idx].Default)
 //@   at call (*Variables).Set#1 assert arg2 == mfd.Parameters[$idx].Name && arg3 == v && arg4 == mfd.Parameters[$idx].DataType && errǂ2 == nil
-//@   ensures imp(result == nil, true)
+//@   ensures imp(result == nil, $idx1 >= len(old(mfd.Parameters)))
 
 // The signature parser never indexes outside its parameter table for any signature
 // text, and a successful parse yields named, typed parameters with no mandatory
@@ -401,6 +401,10 @@ package lang
 //@ func ParseMxFunctionParameters [C23 C19]
 //@   check index, nil
 //@   loop 1 invariant counter == len(mfp) - 1 && counter >= 0
+// inside a [default] every character up to the closing bracket, and inside a "description" every
+// character up to the closing quote, is taken verbatim (CR is ignored, LF is an error)
+//@   loop 1 step imp(old(context) == fpcDefaultRead && r != ']' && r != '\r' && r < 128, context == fpcDefaultRead && counter == old(counter) && len(mfp[counter].Default) == old(len(mfp[counter].Default)) + 1 && mfp[counter].Default[len(mfp[counter].Default)-1] == r)
+//@   loop 1 step imp(old(context) == fpcDescRead && r != '"' && r != '\r' && r < 128, context == fpcDescRead && counter == old(counter) && len(mfp[counter].Description) == old(len(mfp[counter].Description)) + 1 && mfp[counter].Description[len(mfp[counter].Description)-1] == r)
 //@   loop 2 invariant len(mfp) >= 1 && $idx + 1 <= len(mfp)
 //@   loop 2 invariant forall(k, 0, $idx + 1, !streq(mfp[k].Name, "") && !streq(mfp[k].DataType, ""))
 //@   loop 2 invariant forall(k, 0, $idx + 1, imp(!optional, !mfp[k].Optional))
